@@ -293,7 +293,7 @@ func (d *discipline) onBroadcastAttempt(mb *gpbft.MessageBuilder, msg *gpbft.GMe
 			if want > 1 && want < d.input.Len() {
 				w.r.Probe("quality_partial_prefix")
 			}
-		} else if d.qualityProposal != nil {
+		} else {
 			// best-ticket CONVERGE adoption
 			var best *cvEntry
 			for _, e := range d.converge[p.Round] {
@@ -302,7 +302,12 @@ func (d *discipline) onBroadcastAttempt(mb *gpbft.MessageBuilder, msg *gpbft.GMe
 					best = &e
 				}
 			}
-			if best != nil && isPrefixOf(best.value, d.qualityProposal) {
+			if best != nil && !isPrefixOf(best.value, d.input) {
+				// the round's best-ticket value is not on this member's own EC chain: it cannot
+				// adopt it (unless swayed by proof), whatever the implementation does
+				d.w.noteIncompatibleBest(d.k, p.Round)
+			}
+			if best != nil && d.qualityProposal != nil && isPrefixOf(best.value, d.qualityProposal) {
 				w.r.Probe("converge_best_is_prefix_of_quality_proposal")
 				if best.value.Len() < d.qualityProposal.Len() {
 					w.r.Probe("converge_best_is_proper_prefix")
